@@ -17,10 +17,19 @@ func init() {
 	Registry["C07"] = runC07
 	Replayers["C07"] = func(raw []byte) string {
 		var c fileCase
+		var out []string
+		var pair [2]fileCase
+		if err := json.Unmarshal(raw, &pair); err == nil {
+			// an ordered pair: build the first, judge the second
+			if _, _, _, err := pair[0].build(); err != nil {
+				return "build-error :: " + err.Error()
+			}
+			c07Case(pair[1], func(sig, detail string) { out = append(out, sig+" after-another :: "+detail) })
+			return joinLines(out)
+		}
 		if err := json.Unmarshal(raw, &c); err != nil {
 			return "bad case: " + err.Error()
 		}
-		var out []string
 		c07Case(c, func(sig, detail string) { out = append(out, sig+" :: "+detail) })
 		return joinLines(out)
 	}
@@ -107,7 +116,73 @@ func c07Huge(r *core.Run) {
 	r.Set("huge_file_bytes", total)
 }
 
+// c07AfterAnother builds, one after the other in this order and with nothing
+// else running, every ordered pair of files that the builder could confuse if it
+// remembered anything of the previous build: the same length cut differently
+// (equal link counts and totals, different block sizes), the same cut of a
+// different length, another width. The second build is compared with the
+// reference importer exactly as if it had been the first.
+func c07AfterAnother(r *core.Run) {
+	r.Rule("ordered pairs (sequential, nothing else running): build A, then B, for every (L<=maxL, chunk sizes K1!=K2 <= L) x width {2,3} x content {distinct, equal}, plus the 1 MiB neighbours; oracle for B = the reference importer, as for a first build")
+	maxL := 12
+	if !r.Quick() {
+		maxL = 20
+	}
+	pairs := 0
+	run := func(a, b fileCase) {
+		pairs++
+		r.Evaluations.Add(1)
+		r.Transitions.Add(2)
+		if _, _, _, err := a.build(); err != nil {
+			r.Violate(fmt.Sprintf("build-error w=%d %s L=%d %s", a.W, a.Chunker, a.L, a.Pattern), fmt.Sprintf("%s: %v", a, err), a)
+			return
+		}
+		c07Case(b, func(sig, detail string) {
+			r.Violate(fmt.Sprintf("%s after-another w=%d %s L=%d %s", sig, b.W, b.Chunker, b.L, b.Pattern), "after building "+a.String()+": "+detail, [2]fileCase{a, b})
+		})
+	}
+	for _, pat := range []string{"distinct", "equal"} {
+		for _, w := range []int{2, 3} {
+			for L := 2; L <= maxL; L++ {
+				for k1 := 1; k1 <= L; k1++ {
+					for k2 := 1; k2 <= L; k2++ {
+						if k1 == k2 {
+							continue
+						}
+						a := fileCase{Writer: "ours", W: w, Chunker: fmt.Sprintf("size-%d", k1), L: L, K: k1, Pattern: pat}
+						b := fileCase{Writer: "ours", W: w, Chunker: fmt.Sprintf("size-%d", k2), L: L, K: k2, Pattern: pat}
+						run(a, b)
+					}
+				}
+				// the same cut, one byte more or less; the other width
+				a := fileCase{Writer: "ours", W: w, Chunker: "size-3", L: L, K: 3, Pattern: pat}
+				b := a
+				b.L = L + 1
+				run(a, b)
+				run(b, a)
+				b = a
+				b.W = 5 - w
+				run(a, b)
+			}
+		}
+	}
+	big := []fileCase{
+		{Writer: "ours", W: 2, Chunker: "size-1048576", L: 1048577, K: 4099, Pattern: "distinct"},
+		{Writer: "ours", W: 2, Chunker: "size-1048575", L: 1048577, K: 4099, Pattern: "distinct"},
+		{Writer: "ours", W: 2, Chunker: "size-524289", L: 1048577, K: 4099, Pattern: "distinct"},
+	}
+	for i := range big {
+		for j := range big {
+			if i != j {
+				run(big[i], big[j])
+			}
+		}
+	}
+	r.Set("ordered_pairs", pairs)
+}
+
 func runC07(r *core.Run) {
+	c07AfterAnother(r)
 	c07Huge(r)
 	// files built while another build runs through the same LinkSystem come out
 	// as they do alone (alone they equal the reference importer's, below)
